@@ -80,6 +80,11 @@ func FormType(r *Rand, form string, c *TypeCfg, depth int) *schema.Type {
 	case "i32":
 		return schema.Scalar(schema.I32)
 	case "i64":
+		if r.Chance(1, 5) {
+			// a named int64 Go type annotated as plain i64 (the same Go types also
+			// serve as enums elsewhere in the process)
+			return schema.NamedI64(zoo.Enums[r.Intn(len(zoo.Enums))])
+		}
 		return schema.Scalar(schema.I64)
 	case "double":
 		return schema.Scalar(schema.Double)
@@ -178,6 +183,13 @@ func RandomStruct(r *Rand, c *TypeCfg, depth int) *schema.Struct {
 		s.Extras = append(s.Extras, &schema.Extra{Name: schema.UniqueName("Untagged"), Type: reflect.TypeOf(int32(0))})
 		if r.Bool() {
 			s.Extras = append(s.Extras, &schema.Extra{Name: "priv", PkgPath: "verif/dyn", Type: reflect.TypeOf(""), Tag: `frugal:"1,default,string"`})
+		}
+		if r.Bool() {
+			// an embedded field is ignored even when it is exported and carries a valid tag
+			id := uint16(5000 + r.Intn(1000))
+			if !used[id] {
+				s.Extras = append(s.Extras, &schema.Extra{Name: "Inner", Embedded: true, Type: reflect.TypeOf(zoo.Inner{}), Tag: fmt.Sprintf(`frugal:"%d,default,Inner"`, id)})
+			}
 		}
 	}
 	// Go field order is independent of id order
